@@ -1,4 +1,5 @@
 import MdIt.Basic
+import MdIt.Generated.Tables
 /-!
 # MdIt.Str — string functions of the library (model of `rules_core/normalize.py`, column arithmetic of
 `rules_block/state_block.py` / `blockquote.py`)
@@ -80,5 +81,57 @@ def quoteOffsets (fixed : Bool) (bs sc : Nat) (after : List Char) : QuoteOff :=
         ⟨(r.1 : Int) - (sc + 1 : Nat), base + sc + 1 + 1, r.2⟩
     else
       ⟨0, base + sc + 1, 0⟩
+
+end MdIt
+
+namespace MdIt
+
+/-! ### `common/utils.py: unescapeAll`  (`UNESCAPE_ALL_RE = \\([punct])|&([a-z#][a-z0-9]{1,31});`, IGNORECASE) -/
+
+def isAsciiAlnum (c : Char) : Bool :=
+  ('a' ≤ c && c ≤ 'z') || ('A' ≤ c && c ≤ 'Z') || ('0' ≤ c && c ≤ '9')
+def isAsciiAlpha (c : Char) : Bool := ('a' ≤ c && c ≤ 'z') || ('A' ≤ c && c ≤ 'Z')
+
+/-- the second alternative at a position just after `&`: `[a-z#][a-z0-9]{1,31};` — returns the name
+    and the number of characters consumed after the `&` (name and `;`).  The quantifier is greedy and
+    `;` is not alphanumeric, so the only candidate is the maximal alphanumeric run. -/
+def matchEntityName (rest : List Char) : Option (List Char × Nat) :=
+  match rest with
+  | [] => none
+  | c :: r =>
+    if isAsciiAlpha c || c == '#' then
+      let run := r.takeWhile isAsciiAlnum
+      if 1 ≤ run.length ∧ run.length ≤ 31 ∧ (r.drop run.length).head? = some ';' then
+        some (c :: run, run.length + 2)
+      else none
+    else none
+
+/-- `unescapeAll(string)`; `ent name whole` is `replaceEntityPattern(whole, name)` (entity table and
+    numeric references: external parameter) -/
+def unescapeAllFuel (ent : List Char → List Char → List Char) : Nat → List Char → List Char
+  | 0, s => s
+  | _ + 1, [] => []
+  | fuel + 1, c :: rest =>
+    if c = '\\' then
+      match rest with
+      | d :: rest' => if Gen.unescapable.contains d.toNat then d :: unescapeAllFuel ent fuel rest'
+                      else c :: unescapeAllFuel ent fuel rest
+      | [] => [c]
+    else if c = '&' then
+      match matchEntityName rest with
+      | some (name, n) => ent name (c :: rest.take n) ++ unescapeAllFuel ent fuel (rest.drop n)
+      | none => c :: unescapeAllFuel ent fuel rest
+    else c :: unescapeAllFuel ent fuel rest
+
+def unescapeAll (ent : List Char → List Char → List Char) (s : List Char) : List Char :=
+  unescapeAllFuel ent (s.length + 1) s
+
+/-- ASCII punctuation (`!"#$%&'()*+,-./:;<=>?@[\]^_`{|}~`) -/
+def isAsciiPunct (c : Char) : Bool :=
+  let n := c.toNat
+  (33 ≤ n && n ≤ 47) || (58 ≤ n && n ≤ 64) || (91 ≤ n && n ≤ 96) || (123 ≤ n && n ≤ 126)
+
+/-- the property's transformation: a backslash before each ASCII punctuation character -/
+def escapeAll (t : List Char) : List Char := t.flatMap (fun c => if isAsciiPunct c then ['\\', c] else [c])
 
 end MdIt
